@@ -44,60 +44,68 @@ def check_pair(rep, g):
         return
     rep.ok("C06.compile", inst)
     W, R = g.W, g.R
+    Wc, Rc = g.Wc, g.Rc
     if any(i["kind"].startswith("other") for i in W + R):
         raise AnalysisBroken("C06 %s: stream operation other than write/read at %s" % (inst, ir.where([i for i in W + R if i["kind"].startswith("other")][0]["call"].inst)))
     if any(i["call"].cond != ir.TRUE for i in W):
         rep.fail("C06.IO1-2", inst, file, "a write is conditional; the byte stream of this layer is not a fixed item sequence")
         return
-    if [i["kind"] for i in W] != [i["kind"] for i in R] or [i.get("bytes") for i in W] != [i.get("bytes") for i in R]:
+    if [(i["kind"], i.get("bytes")) for i in Wc] != [(i["kind"], i.get("bytes")) for i in Rc]:
         rep.fail("C06.IO1-2", inst, file, "writer emits %s but reader consumes %s" % (g.summary()["W"], g.summary()["R"]))
         return
     rep.ok("C06.IO1-2", inst, sample={"layer": inst, "grammar": g.summary()["W"]} if len(rep.samples) < 6 else None)
     nf = m["nf"]
     tag_out = g.outs.get(8 * (nf + 1))
-    tag = tag_out[1] if tag_out and tag_out[0] == 'cf' else None
-    if tag_out and tag_out[0] == 'cf':
-        tag = int(tag_out[1])
-    raws = [i for i in W if i["kind"] == "raw"]
+    tag = int(tag_out[1]) if tag_out and tag_out[0] == 'cf' else None
     tagged = m["layer"] not in io.TRANSPARENT
     lits = g.ret_lits[0] if len(g.ret_lits) == 1 else None
     if lits is None:
         raise AnalysisBroken("C06 %s: reader has %d normal returns" % (inst, len(g.ret_lits)))
-    if tagged or m["field"]:
-        # expected framing, outermost first
-        frames = []
-        if m["field"]:
-            frames.append(0xAB000000)
-        if tagged:
-            frames.append(tag)
+    frames = ([0xAB000000] if m["field"] else []) + ([tag] if tagged else [])
+    nfr = len(frames)
+    if frames:
         good = True
-        rraw = [i for i in R]
-        for d, t in enumerate(frames):
-            head = [(2 * d, io.MAGIC_HEADER), (2 * d + 1, t)]
-            tail = [(len(W) - 2 * d - 2, io.MAGIC_FOOTER), (len(W) - 2 * d - 1, (t + io.FOOTER_DELTA) & 0xFFFFFFFF)]
-            for pos, const in head + tail:
-                wi = W[pos]
-                c = wi.get("content")
-                if wi["kind"] != "raw" or wi["bytes"] != 4 or not c or len(c) != 1 or c[0][2] != ('ci', const, 32):
-                    rep.fail("C06.IO3", "%s word %d" % (inst, pos), ir.where(wi["call"].inst), "word %d written is %s, expected 0x%08X" % (pos, g.summary()["W"][pos], const))
-                    good = False
-                    continue
-                if not io.eq_literal(lits, R[pos]["call"].n, const):
-                    rep.fail("C06.IO3", "%s word %d" % (inst, pos), ir.where(R[pos]["call"].inst), "reader does not require word %d to equal 0x%08X before returning" % (pos, const))
-                    good = False
+        first, last = Wc[0], Wc[-1]
+        rfirst, rlast = Rc[0], Rc[-1]
+        if first["kind"] != "raw" or last["kind"] != "raw" or first["bytes"] < 8 * nfr or last["bytes"] < 8 * nfr:
+            rep.fail("C06.IO3", inst, file, "stream does not start and end with %d header/footer word pairs: %s" % (nfr, g.summary()["W"]))
+            good = False
+        else:
+            for d, t in enumerate(frames):
+                words = [(first, rfirst, 8 * d, io.MAGIC_HEADER), (first, rfirst, 8 * d + 4, t),
+                         (last, rlast, last["bytes"] - 8 * (d + 1), io.MAGIC_FOOTER), (last, rlast, last["bytes"] - 8 * (d + 1) + 4, (t + io.FOOTER_DELTA) & 0xFFFFFFFF)]
+                for wrun, rrun, off, const in words:
+                    got = io.run_word(wrun, off)
+                    wi = "%s word@%s%d" % (inst, "start+" if wrun is first and off < 8 * nfr else "end-", off if wrun is first and off < 8 * nfr else wrun["bytes"] - off)
+                    if got != const:
+                        rep.fail("C06.IO3", wi, ir.where(wrun["parts"][0][2].inst), "word written is %s, expected 0x%08X" % ("0x%08X" % got if got is not None else "not a constant", const))
+                        good = False
+                        continue
+                    k, rel = io.run_read_at(rrun, off)
+                    if k is None or rel != 0 or not io.eq_literal(lits, k, const):
+                        rep.fail("C06.IO3", wi, ir.where(rrun["parts"][0][2].inst), "reader does not require this word to equal 0x%08X before returning" % const)
+                        good = False
         if good:
             rep.ok("C06.IO3", inst)
-    # IO4 / IO6: payload
-    payload = [(p, i) for p, i in enumerate(W) if i["kind"] == "raw" and not (i.get("content") and len(i["content"]) == 1 and i["content"][0][2][0] == 'ci' and i["bytes"] == 4 and (p < 4 or p >= len(W) - 4))]
+    # IO4 / IO6: payload = everything in the raw runs except the framing words
     field_atoms = {('arg', k): r for k, (_, r) in enumerate(hw.args[:nf])}
     seen_fields = set()
     good4 = good6 = True
-    for p, it in payload:
-        c = it.get("content")
-        if c is None:
-            raise AnalysisBroken("C06 %s: cannot determine what item %d writes" % (inst, p))
-        covered = 0
-        for off, sz, term in c:
+    any_payload = False
+    for si, (wrun, rrun) in enumerate(zip(Wc, Rc)):
+        if wrun["kind"] != "raw":
+            continue
+        lo = 8 * nfr if si == 0 else 0
+        hi = wrun["bytes"] - (8 * nfr if si == len(Wc) - 1 else 0)
+        if hi <= lo:
+            continue
+        any_payload = True
+        if wrun["unknown_content"]:
+            raise AnalysisBroken("C06 %s: cannot determine what a write emits" % inst)
+        covered = lo
+        for off, sz, term in sorted(wrun["content"]):
+            if off < lo or off >= hi:
+                continue
             if off != covered or ir.has_undef(term):
                 good6 = False
             covered = off + sz
@@ -105,17 +113,17 @@ def check_pair(rep, g):
                 k = term[1]
                 seen_fields.add(k)
                 got = g.outs.get(8 * k)
-                exp = ('wr', R[p]["call"].n, 1, off, sz)
                 g2 = strip_num(got) if got else None
-                if not (g2 and g2[0] == 'wr' and g2[:5] == exp):
-                    rep.fail("C06.IO4", "%s field %s" % (inst, field_atoms[term]), file, "field %s is written at item %d offset %d but the reloaded object's field is %s" % (
-                        field_atoms[term], p, off, ir.show(got) if got else "never set"))
+                rk, rel = io.run_read_at(rrun, off, sz)
+                if not (g2 and g2[0] == 'wr' and rk is not None and g2[:5] == ('wr', rk, 1, rel, sz)):
+                    rep.fail("C06.IO4", "%s field %s" % (inst, field_atoms[term]), file, "field %s is written at payload byte %d but the reloaded object's field is %s" % (
+                        field_atoms[term], off - lo, ir.show(got) if got else "never set"))
                     good4 = False
-        if covered != it["bytes"]:
+        if covered != hi:
             good6 = False
         if not good6:
-            rep.fail("C06.IO6", "%s item %d" % (inst, p), ir.where(it["call"].inst), "item %d writes %d bytes of which only %d are defined values (padding or uninitialised bytes reach the stream)" % (p, it["bytes"], covered))
-    if payload:
+            rep.fail("C06.IO6", "%s run %d" % (inst, si), ir.where(wrun["parts"][0][2].inst), "payload run of %d bytes: only bytes up to %d are defined values (padding or uninitialised bytes reach the stream)" % (hi - lo, covered - lo))
+    if any_payload:
         missing = set(range(nf)) - seen_fields
         if missing:
             rep.fail("C06.IO4", "%s unwritten" % inst, file, "configuration field(s) %s are never written" % [hw.args[k][1] for k in sorted(missing)])
